@@ -569,6 +569,12 @@ func runCheck(c *propCfg, tier string) int {
 			continue
 		}
 		rto := 4 * time.Minute
+		if len(violations) >= 3 {
+			// enough confirmed, reproducing violations for a verdict: the remaining failing shards are listed, not replayed
+			// (replaying sixteen hanging cases one after the other would take half an hour)
+			fmt.Printf("--- failure (shard %s) not replayed: %d violations already confirmed ---\n", filepath.Base(r.base), len(violations))
+			continue
+		}
 		rep, bug, out := replayFresh(b, cand, rto)
 		if bug {
 			infra = append(infra, "harness bug on replay: "+firstLines(out, 10))
